@@ -64,6 +64,9 @@ theorem insertVertex_inv {m : KV} {f : List String} {a : AG} (h : Inv m f a) {g 
     have := h.eindex g' id' r hr
     exact ⟨isSome_get_set (isSome_get_set (isSome_get_set (isSome_get_set this.1 _ _) _ _) _ _) _ _,
       isSome_get_set (isSome_get_set (isSome_get_set (isSome_get_set this.2 _ _) _ _) _ _) _ _⟩
+  · intro f' hf'
+    simp only [KV.get_set, reduceCtorEq, ↓reduceIte] at hf'
+    exact h.fieldOwner f' hf'
 
 /-- the old record of a re-added edge, if any, has the same endpoints and label -/
 theorem edgeAt_none_of_ok {a : AG} {g : String} {x : EdgeIn} (hv : validEdge x = true)
@@ -159,6 +162,9 @@ theorem insertEdge_inv {m : KV} {f : List String} {a : AG} (h : Inv m f a) {g : 
     · simp only [e, ↓reduceIte] at hr
       have := h.eindex g' id' r hr
       exact ⟨mono _ this.1, mono _ this.2⟩
+  · intro f' hf'
+    simp only [KV.get_set, reduceCtorEq, ↓reduceIte] at hf'
+    exact h.fieldOwner f' hf'
 
 /-- one element: the MODEL insert and the SPEC put agree -/
 theorem insertElem_inv {m : KV} {f : List String} {a : AG} (h : Inv m f a) {g : String}
